@@ -185,7 +185,7 @@ def portfolio(solver, budget=None):
     return portfolio_text(solver.to_smt2(), budget)
 
 
-def portfolio_text(text, budget=None):
+def portfolio_text(text, budget=None, only=None, need_model=True):
     budget = budget or PORTFOLIO_S * min(2, _scale())
     text = text.replace("(check-sat)", "")
     d = tempfile.mkdtemp(prefix="pyvc")
@@ -203,6 +203,8 @@ def portfolio_text(text, budget=None):
         cmds.append(("z3-5.1-cli", [Z3NEW, "-T:%d" % budget, pathm]))
     if os.path.exists(Z3OLD):
         cmds.append(("z3-4.8", [Z3OLD, "-T:%d" % budget, pathm]))
+    if only:
+        cmds = [c for c in cmds if c[0] in only] or cmds
     procs = []
     for name, cmd in cmds:
         try:
@@ -229,6 +231,9 @@ def portfolio_text(text, budget=None):
                     verdict, backend = "sat", name
                     if name != "cvc5":
                         model = parse_model(out)
+                        live = []
+                        break
+                    if not need_model:
                         live = []
                         break
                     # cvc5 said sat: keep waiting for a z3 to produce the model
